@@ -84,18 +84,15 @@ def r1(ctx):
             else:
                 continue
             operand = v['ch'][0]
-            carried = None
+            carried = []
             direct_hit = None
             for x in fn.walk(operand):
                 xv = fn.nodes[x]
                 if x in direct:
                     direct_hit = x
-                elif xv['k'] == 'DeclRefExpr' and xv.get('decl') in wide:
-                    carried = xv['decl']
-                elif xv['k'] in ('CallExpr', 'CXXMemberCallExpr') and x not in direct and x != operand:
-                    pass
-            # a wide value consumed by a call argument inside the operand is that callee's business
-            if direct_hit is None and carried is None:
+                elif xv['k'] == 'DeclRefExpr' and xv.get('decl') in wide and xv['decl'] not in carried:
+                    carried.append(xv['decl'])
+            if direct_hit is None and not carried:
                 continue
             tgt_w = v.get('w', 32)
             construct = 'narrow %s -> %s of %s' % (v.get('st'), v.get('t'), fn.key(operand))
@@ -104,8 +101,13 @@ def r1(ctx):
                        'conversion applied directly to the result of %s: no range check on the wide value is possible' %
                        fn.nodes[direct_hit]['callee'])
                 continue
-            info = wide[carried]
-            ok, why, wit = bounded_on_all_paths(fn, carried, info, nid, tgt_w)
+            ok, why, wit = True, '', None
+            for cd in carried:
+                ok1, why1, wit1 = bounded_on_all_paths(fn, cd, wide, nid, tgt_w)
+                if not ok1:
+                    ok, why, wit = False, why1, wit1
+                    break
+                why = why1
             ctx.ob('C07.R1', fn, nid, ok, construct, why, witness=wit)
     if nsrc < 9:
         raise AnalysisBroken('C07.R1: only %d wide sources found (confirmed: 9)' % nsrc)
@@ -139,33 +141,54 @@ def bound_fits(fn, a, decl, tgt_w, ivenv):
     return None
 
 
-def bounded_on_all_paths(fn, decl, info, sink, tgt_w):
-    """explore all feasible paths from the function entry to the sink; state = frozenset of established bounds,
-    reset by every write to the variable"""
+def bounded_on_all_paths(fn, decl, wide, sink, tgt_w):
+    """explore all feasible paths from the function entry to the sink; state = frozenset of (wide decl, side)
+    bounds established so far. A write to a wide variable resets its bounds, except a pure conversion copy
+    `W2 = (T)W1`, which inherits the bounds of W1 (conversions are monotone)."""
+    info = wide[decl]
     sink_pos = fn.pos(sink)
     if sink_pos is None:
         raise AnalysisBroken('C07.R1: sink not in CFG of %s' % fn.name)
-    need = {'upper'} | ({'lower'} if info['neg'] else set())
+    need = {(decl, 'upper')} | ({(decl, 'lower')} if info['neg'] else set())
     name = info['name']
     ivenv = common.IntervalEnv(fn)
     bad = []
     okcount = [0]
+    sink_elem = fn.blocks[sink_pos[0]].elems[sink_pos[1]] if sink_pos[1] < len(fn.blocks[sink_pos[0]].elems) else None
+
+    def pure_copy_of(rhs):
+        r = fn.strip(rhs, casts=True)
+        rv = fn.nodes.get(r, {})
+        if rv.get('k') == 'DeclRefExpr' and rv.get('decl') in wide:
+            return rv['decl']
+        return None
 
     def on_elem(user, e, path):
         v = fn.nodes[e]
-        # writes to the variable reset its bounds
         k = v['k']
-        wrote = False
+        written = []   # (decl, rhs)
         if k in ('BinaryOperator', 'CompoundAssignOperator') and v.get('op', '').endswith('=') and \
-                v['op'] not in ('==', '!=', '<=', '>=') and fn.ref_decl(v['lhs']) == decl:
-            wrote = True
-        elif k == 'DeclStmt' and any(d['decl'] == decl for d in v.get('decls', [])):
-            wrote = True
-        elif k == 'UnaryOperator' and v.get('op') in ('++', '--') and fn.ref_decl(v['ch'][0]) == decl:
-            wrote = True
-        if wrote:
-            user = frozenset()
-        if e == sink or fn.pos(sink) == fn.pos(e) and e == fn.blocks[sink_pos[0]].elems[sink_pos[1]]:
+                v['op'] not in ('==', '!=', '<=', '>='):
+            d = fn.ref_decl(v['lhs'])
+            if d in wide:
+                written.append((d, v['rhs'] if v['op'] == '=' else None))
+        elif k == 'DeclStmt':
+            for dd in v.get('decls', []):
+                if dd['decl'] in wide:
+                    written.append((dd['decl'], dd.get('init')))
+        elif k == 'UnaryOperator' and v.get('op') in ('++', '--'):
+            d = fn.ref_decl(v['ch'][0])
+            if d in wide:
+                written.append((d, None))
+        for d, rhs in written:
+            st = set(x for x in user if x[0] != d)
+            src = pure_copy_of(rhs) if rhs is not None else None
+            if src is not None and src != d:
+                for (dd, side) in user:
+                    if dd == src:
+                        st.add((d, side))
+            user = frozenset(st)
+        if e == sink_elem:
             if need <= set(user):
                 okcount[0] += 1
             else:
@@ -180,11 +203,12 @@ def bounded_on_all_paths(fn, decl, info, sink, tgt_w):
             for a in conj:
                 if a[0] != 'cmp':
                     continue
-                r = bound_fits(fn, a, decl, tgt_w, ivenv)
-                if r == 'both':
-                    here |= {'upper', 'lower'}
-                elif r:
-                    here.add(r)
+                for wd in wide:
+                    r = bound_fits(fn, a, wd, tgt_w, ivenv)
+                    if r == 'both':
+                        here |= {(wd, 'upper'), (wd, 'lower')}
+                    elif r:
+                        here.add((wd, r))
             got = here if got is None else (got & here)
         if got:
             return frozenset(set(user) | got)
@@ -196,7 +220,7 @@ def bounded_on_all_paths(fn, decl, info, sink, tgt_w):
         return True, 'sink unreachable', None
     if bad:
         user, path = bad[0]
-        missing = sorted(need - set(user))
+        missing = sorted(side for (d, side) in need - set(user))
         return False, 'wide value %s reaches the conversion without %s bound on %d feasible path class(es)' % (
             name, ' and '.join(missing), len(bad)), ex.describe_path(path)
     return True, 'bounded on both required sides on all %d feasible path class(es)' % okcount[0], None
